@@ -93,6 +93,12 @@ func placedFields(plan *gateway.QueryPlan, internal string) []placedField {
 }
 
 func (c20) Run(c *Ctx, i int) CaseResult {
+	// L2: the routing table's own operations (RegisterURL, Concat, URLFor) against Um (3 sequences per case)
+	for k := 0; k < 3; k++ {
+		if uf := UrlMapCorr(c, c.Rand(i*10+k+64000000)); len(uf) > 0 {
+			return CaseResult{ID: fmt.Sprintf("gen:%d", i), Nontrivial: true, Fails: uf}
+		}
+	}
 	var in FedInput
 	feats := map[string]bool{}
 	id := ""
